@@ -169,6 +169,14 @@ def run_group(verif, repo, group, pid, tier, scratch):
         return h, parse_kani(out).get(h["name"]), out[-600:]
 
     import concurrent.futures as cf
+    # groups with a "lock" name are serialised across check processes (two raft runs side by side need more
+    # memory than the machine has: CBMC was killed and the harness came out UNDETERMINED); the lock file is
+    # created on demand next to the scratch directories
+    lock_f = None
+    if gd.get("lock"):
+        import fcntl
+        lock_f = open(os.path.join(os.environ.get("VERIF_SCRATCH", "/var/tmp"), f"agdb-verif-{gd['lock']}.lock"), "w")
+        fcntl.flock(lock_f, fcntl.LOCK_EX)
     # harnesses marked "exclusive" need most of the machine's memory (CBMC > 20 GB): they run one at a time,
     # after the others (run in parallel they were killed for lack of memory and came out UNDETERMINED)
     par = [h for h in hs if not h.get("exclusive")]
@@ -177,6 +185,8 @@ def run_group(verif, repo, group, pid, tier, scratch):
         outs = list(ex.map(one, par))
     for h in seq:
         outs.append(one(h))
+    if lock_f:
+        lock_f.close()
     res["wall_s"] = time.time() - t0
     for h, pr, tail in outs:
         row = {"name": h["name"], "label": h["label"], "kind": h.get("kind", "proof"), "result": "MISSING"}
